@@ -316,3 +316,44 @@ Definition owners_allowed (dk : skind) (src : source) (buf : option string) (t :
     | None => []
     | Some pre => [(OBuf (String.length pre), Some (pre ++ t)%string)]
     end.
+
+(* ---------- the domain of the statements ---------- *)
+(* a Go value of type intN/uintN lies in that type's range; a float32 value is a float32
+   (converting it to float64 and back gives it again) *)
+Definition wf_sval (v : sval) : Prop :=
+  match v with
+  | VInt k z => in_range k z = true
+  | VF32 f => to_f32 (to_f64 f) = f
+  | _ => True
+  end.
+
+Definition wf_source (src : source) : Prop :=
+  match src with SVal v | SPtr v => wf_sval v | _ => True end.
+
+(* the source is not a typed nil pointer *)
+Definition not_nil (src : source) : bool :=
+  match src with SNil _ => false | _ => true end.
+
+Definition text_dest (dst : dest) : bool :=
+  match dst with DPtr (VStr _) | DPtr (VBytes _) => true | _ => false end.
+
+(* [rf] is AppendFloat(f,'f',-1,64) on the float this source holds: the source's float lies
+   in the exact-decimal domain of Floats.render_float *)
+Definition rendered (rf : spec_float -> string) (src : source) : Prop :=
+  match src with
+  | SVal (VF32 f) | SPtr (VF32 f) => render_float (to_f64 f) = Some (rf (to_f64 f))
+  | SVal (VF64 f) | SPtr (VF64 f) => render_float f = Some (rf f)
+  | _ => True
+  end.
+
+(* (ok, destination) of an outcome *)
+Definition result (o : outcome) : option (bool * dest) :=
+  match o with Done ok d _ _ => Some (ok, d) | _ => None end.
+
+(* the text a destination holds (empty for the others) *)
+Definition stored_text (d : dest) : string :=
+  match d with DPtr (VStr s) | DPtr (VBytes s) => s | _ => ""%string end.
+
+(* the value a source carries *)
+Definition value_of (src : source) : option sval :=
+  match src with SVal v | SPtr v => Some v | _ => None end.
